@@ -225,7 +225,7 @@ def depth(t):
 
 # ------------------------------------------------------------------------------------------------ printer mirror (tokens and text)
 
-def print_tokens(t, needs, keep_spec=True, extra=None):
+def print_tokens(t, needs, keep_spec=True, extra=None, short_idx=True):
     """Mirror of Coq `print`: list of tokens (tag, payload). `extra(path)` may ask for additional redundant parentheses (Python-side
     validation of "redundant parentheses preserve the parse" only)."""
     def go(t, path):
@@ -238,7 +238,7 @@ def print_tokens(t, needs, keep_spec=True, extra=None):
             if extra is not None and expr_kind(c[0]): n += extra(path + (i,))
             for _ in range(n): w = [('LP', None)] + w + [('RP', None)]
             ws.append(w)
-        return layout(k, d, ws, keep_spec)
+        return layout(k, d, ws, keep_spec, short_idx)
     return go(t, ())
 
 
@@ -250,7 +250,7 @@ def _inter(sep, ws):
     return out
 
 
-def layout(k, d, ws, keep_spec):
+def layout(k, d, ws, keep_spec, short_idx=True):
     cat = [x for w in ws for x in w]
     if k == 'Name': return [('Name', d)]
     if k == 'Const': return [('Const', d)]
@@ -271,7 +271,10 @@ def layout(k, d, ws, keep_spec):
         if len(ws) == 1: return [('LP', None)] + ws[0] + [('Trail', None), ('RP', None)]
         return [('LP', None)] + _inter(('Comma', None), ws) + [('RP', None)]
     if k == 'List': return [('LB', None)] + _inter(('Comma', None), ws) + [('RB', None)]
-    if k == 'IdxTuple': return _inter(('Comma', None), ws)
+    if k == 'IdxTuple':
+        if short_idx and len(ws) == 0: return [('LP', None), ('RP', None)]
+        if short_idx and len(ws) == 1: return ws[0] + [('Trail', None)]
+        return _inter(('Comma', None), ws)
     if k in ('StarArg', 'StarElt'): return [('Star', None)] + cat
     if k == 'Keyword': return ([('DStar', None)] if d is None else [('Kw', d)]) + cat
     if k == 'Slice':
@@ -337,12 +340,14 @@ def quote_free(t):
 
 
 def wf(t, parse_model=True):
-    """Arity and context constraints of the Coq predicate `wf` (parse_model: also the restrictions under which the Coq parser theorem
-    is stated: no NegConst, index tuples of length >= 2, no lambda inside an f-string field)."""
+    """Arity and context constraints of the Coq predicate `wf` (parse_model: also the restriction under which the Coq parser theorem
+    is stated: no NegConst).  Text-level restrictions of the generated universe (not part of Coq's wf, which is about tokens): no lambda and no
+    string constant inside an f-string field, no integer literal as receiver of .attr / call / subscript (lexical: `1.real`; the code
+    parenthesises such receivers since 2e38fbd, the token model does not know integer literals from other constants)."""
     k, d, cs = t
     n = len(cs)
     ar = {'Name': n == 0, 'Const': n == 0, 'NegConst': n == 0 and not parse_model, 'Or': n >= 2, 'And': n >= 2, 'IfExp': n == 3,
-          'Call': n >= 1, 'Subscript': n == 2, 'Tuple': True, 'List': True, 'IdxTuple': n >= 2 or not parse_model,
+          'Call': n >= 1, 'Subscript': n == 2, 'Tuple': True, 'List': True, 'IdxTuple': True,
           'Compare': n >= 2 and d is not None and len(d) == n - 1, 'Lambda': n == 1, 'Attribute': n == 1, 'Keyword': n == 1,
           'StarArg': n == 1, 'StarElt': n == 1, 'Formatted': n == 1}
     if k in UNARY: ok = n == 1
@@ -360,7 +365,7 @@ def wf(t, parse_model=True):
             if c[0] == 'Keyword': seen_kw = True
             elif seen_kw: return False
     if k == 'Formatted' and (has_kind(cs[0], {'Lambda'}) or not quote_free(cs[0])): return False
-    if k == 'Attribute' and cs[0][0] == 'Const' and cs[0][1].isdigit(): return False      # lexical: `1.p` is a float literal followed by a name
+    if k in ('Attribute', 'Call', 'Subscript') and cs[0][0] == 'Const' and cs[0][1].isdigit(): return False      # lexical, see above
     return True
 
 
@@ -374,7 +379,7 @@ LITCHARS = 'xyz ,.-=+<>#%()[]'
 
 class Gen(object):
     """Random well-formed trees. Every choice comes from the rng handed in."""
-    def __init__(self, rng, negconst=False, invert=True, short_idx=False, fstr=True, braces=False, specs=True, lam=True, strconst=True):
+    def __init__(self, rng, negconst=False, invert=True, short_idx=True, fstr=True, braces=False, specs=True, lam=True, strconst=True):
         self.rng = rng; self.negconst = negconst; self.invert = invert; self.short_idx = short_idx
         self.fstr = fstr; self.braces = braces; self.specs = specs; self.lam = lam; self.strconst = strconst
 
@@ -406,10 +411,7 @@ class Gen(object):
             return ('Compare', [r.choice(CMPOPS) for _ in range(n)], [sub() for _ in range(n + 1)])
         if g == 'ifexp': return ('IfExp', None, [sub(), sub(), sub()])
         if g == 'lambda': return ('Lambda', r.sample(['u', 'v'], r.choice([0, 1, 2])), [sub()])
-        if g == 'attr':
-            v = sub()
-            if v[0] == 'Const' and v[1].isdigit(): v = ('Name', r.choice(NAMES), [])      # `1.p` does not lex as an attribute access
-            return ('Attribute', r.choice(ATTRS), [v])
+        if g == 'attr': return ('Attribute', r.choice(ATTRS), [self.receiver(sub())])
         if g == 'call':
             args = []
             for _ in range(r.choice([0, 1, 1, 2])):
@@ -417,7 +419,7 @@ class Gen(object):
             for kw in r.sample(KWNAMES, r.choice([0, 0, 1, 2])):
                 args.append(('Keyword', kw, [sub()]))
             if r.random() < 0.1: args.append(('Keyword', None, [sub()]))
-            return ('Call', None, [sub()] + args)
+            return ('Call', None, [self.receiver(sub())] + args)
         if g == 'sub':
             x = r.random()
             if x < 0.5:
@@ -425,10 +427,9 @@ class Gen(object):
                 if s[0] == 'Tuple': s = self.atom(infield)
             elif x < 0.8: s = self.slice(depth, infield)
             else:
-                lo = 0 if self.short_idx else 2
-                n = r.choice([lo, 2, 2, 3]) if not self.short_idx else r.choice([0, 1, 1, 2])
+                n = r.choice([0, 1, 2, 2, 3]) if self.short_idx else r.choice([2, 2, 3])
                 s = ('IdxTuple', None, [self.slice(depth, infield) if r.random() < 0.25 else sub() for _ in range(n)])
-            return ('Subscript', None, [sub(), s])
+            return ('Subscript', None, [self.receiver(sub()), s])
         if g in ('tuple', 'list'):
             n = r.choice([0, 1, 2, 2, 3])
             return ('Tuple' if g == 'tuple' else 'List', None, [('StarElt', None, [sub()]) if r.random() < 0.12 else sub() for _ in range(n)])
@@ -442,6 +443,10 @@ class Gen(object):
                 fields.append(('Formatted', (conv, spec), [self.expr(depth - 1, True)]))
             return ('Joined', lits, fields)
         raise ValueError(g)
+
+    def receiver(self, v):
+        if v[0] == 'Const' and v[1].isdigit(): return ('Name', self.rng.choice(NAMES), [])      # an integer literal receiver is a lexical matter
+        return v
 
     def lit(self):
         r = self.rng
